@@ -175,6 +175,11 @@ func (s LocalStore) Verify(ctx context.Context, n int, repair bool, w io.Writer)
 		if err != nil {
 			return nil
 		}
+		// A file with the name of a chunk that is not where the store keeps that chunk
+		// is not a chunk of this store, leave it alone
+		if !isChunkPath(root, path, sID) {
+			return nil
+		}
 		// Feed the workers
 		ids <- id
 		return nil
@@ -182,6 +187,13 @@ func (s LocalStore) Verify(ctx context.Context, n int, repair bool, w io.Writer)
 	close(ids)
 	wg.Wait()
 	return err
+}
+
+// isChunkPath returns true if path is where a store rooted at root keeps the chunk with
+// the ID string sID: <root>/<first 4 characters of the ID>/<ID><extension>.
+func isChunkPath(root, path, sID string) bool {
+	dir := filepath.Dir(path)
+	return len(sID) >= 4 && filepath.Base(dir) == sID[0:4] && filepath.Dir(dir) == filepath.Clean(root)
 }
 
 // Prune removes any chunks from the store that are not contained in a list
@@ -229,6 +241,11 @@ func (s LocalStore) Prune(ctx context.Context, ids map[ChunkID]struct{}) error {
 		// at a chunk file and should skip it.
 		id, err := ChunkIDFromString(sID)
 		if err != nil {
+			return nil
+		}
+		// A file with the name of a chunk that is not where the store keeps that chunk
+		// is not a chunk of this store, leave it alone
+		if !isChunkPath(root, path, sID) {
 			return nil
 		}
 		// See if the chunk we're looking at is in the list we want to keep, if not
